@@ -483,8 +483,9 @@ STATIC = list(globals().get("STATIC", [])) + [
 
 # ---- C19 units reused (added after seeded change C05-2 was missed): "all queued work runs after resume()" depends on the pool's
 # ---- resume path; the units are the ones of specs/C19 (same templates, same contracts), run here as part of C05 as well
-_c19 = {}
-exec(compile(open("/verif/specs/C19/spec.py").read(), "/verif/specs/C19/spec.py", "exec"), _c19)
+_c19 = {"UNITS": [], "VX_NO_REUSE": True}
+if not globals().get("VX_NO_REUSE"):     # reuse is never transitive: the other spec is loaded without ITS reuse blocks (no cycles)
+    exec(compile(open("/verif/specs/C19/spec.py").read(), "/verif/specs/C19/spec.py", "exec"), _c19)
 for _u in _c19["UNITS"]:
     if _u.name in ("state.resume_pu_direct", "state.resume_internal", "state.suspend_internal", "state.suspend_pu_internal", "state.sched_suspend", "state.sched_resume"):
         _u.name = "c19." + _u.name
